@@ -69,6 +69,14 @@ type Conn struct {
 	// FailWrites makes broker-side writes fail (a peer that vanished without closing).
 	failWrites       bool
 	writesAfterClose int64
+	// first frame bookkeeping: once the broker has consumed a complete first frame (the
+	// CONNECT) it owes the connection an answer or a close; until then the connection is not
+	// quiet even if a reader is already parked (the session's serve loop starts reading before
+	// the setup worker has written the CONNACK)
+	head      []byte // first bytes consumed (at most 5)
+	consumed  int64
+	frameLen  int64 // total length of the first frame; 0 = not known yet, -1 = malformed length
+	wroteOnce bool
 }
 
 func NewConn(name string, clk *Clock, activity *int64) *Conn {
@@ -92,6 +100,7 @@ func (c *Conn) Read(p []byte) (int, error) {
 		}
 		if len(c.toBroker) > 0 {
 			n := copy(p, c.toBroker)
+			c.noteConsumed(c.toBroker[:n])
 			c.toBroker = c.toBroker[n:]
 			c.bump()
 			return n, nil
@@ -115,12 +124,46 @@ func (c *Conn) Write(p []byte) (int, error) {
 		c.writesAfterClose++
 		return 0, errClosed
 	}
+	c.wroteOnce = true
 	if c.clientClosed || c.failWrites {
 		return 0, io.ErrClosedPipe
 	}
 	c.fromBroker = append(c.fromBroker, p...)
 	c.bump()
 	return len(p), nil
+}
+
+// noteConsumed tracks the framing of the first packet (c.mu held).
+func (c *Conn) noteConsumed(b []byte) {
+	c.consumed += int64(len(b))
+	if c.frameLen != 0 {
+		return
+	}
+	for _, x := range b {
+		if len(c.head) < 5 {
+			c.head = append(c.head, x)
+		}
+	}
+	// fixed header byte + remaining length (1-4 bytes, continuation bit 0x80)
+	rem, mult := int64(0), int64(1)
+	for i := 1; i < len(c.head); i++ {
+		rem += int64(c.head[i]&0x7f) * mult
+		mult *= 128
+		if c.head[i]&0x80 == 0 {
+			c.frameLen = int64(i+1) + rem
+			return
+		}
+		if i == 4 {
+			c.frameLen = -1
+			return
+		}
+	}
+}
+
+// awaitingAnswer: a complete first frame was consumed and the broker has neither written
+// anything nor closed the connection yet (c.mu held).
+func (c *Conn) awaitingAnswer() bool {
+	return c.frameLen > 0 && c.consumed >= c.frameLen && !c.wroteOnce && !c.brokerClosed && !c.clientClosed
 }
 
 func (c *Conn) Close() error {
@@ -187,10 +230,12 @@ type ConnState struct {
 	Unread       int // bytes written by the broker, not yet taken by the client
 	Deadline     time.Duration
 	HasDeadline  bool
+	// AwaitingAnswer: the broker consumed a complete first frame and has not answered or closed yet
+	AwaitingAnswer bool
 }
 
 func (c *Conn) State() ConnState {
 	c.mu.Lock()
 	defer c.mu.Unlock()
-	return ConnState{len(c.toBroker), c.parked, c.brokerClosed, c.clientClosed, len(c.fromBroker), c.deadline, c.hasDeadline}
+	return ConnState{len(c.toBroker), c.parked, c.brokerClosed, c.clientClosed, len(c.fromBroker), c.deadline, c.hasDeadline, c.awaitingAnswer()}
 }
